@@ -269,6 +269,21 @@ func (cc *ClientConn) newStream(
 		})
 	}
 
+	if !desc.ServerStreams {
+		// one reply: a success only once the peer's final status says so
+		return client.NewSingleResponseStream(
+			ctx,
+			id,
+			method,
+			rw,
+			teardown,
+			cc.sourceAddress,
+			cc.destAddress,
+			cc.statsHandlers,
+			beginTime,
+		), nil
+	}
+
 	return client.NewStream(
 		ctx,
 		id,
